@@ -10,7 +10,8 @@
 (***************************************************************************)
 EXTENDS Naturals, Sequences, FiniteSets, TLC, Json
 
-CONSTANTS MaxCols, NKeys, NVals, GenLen
+CONSTANTS MaxCols, NKeys, NVals, GenLen,
+          MinCols    \* generation: a new database gets MinCols..MaxCols columns (wide databases: two-digit column numbers)
 
 VARIABLES
     exists,   \* the database directory holds a database
@@ -128,7 +129,7 @@ GenNext ==
                \/ Reset(Rand(1..Len(cols)), RandOpt, Rand(BOOLEAN))
                \/ Clear(Rand(1..Len(cols))))
   /\ ~pend =>
-    \/ (~exists /\ LET n == Rand(1..MaxCols) IN Create([i \in 1..n |-> Rand(ValidOpts)]))
+    \/ (~exists /\ LET n == Rand(MinCols..MaxCols) IN Create([i \in 1..n |-> Rand(ValidOpts)]))
     \/ (exists /\ PlainCols # {} /\ Commit(<<RandPlainOp>>, FALSE))
     \/ (exists /\ PlainCols # {} /\ Commit(<<RandPlainOp, RandPlainOp>>, Rand(BOOLEAN)))
     \/ (exists /\ Open(cols))
